@@ -317,6 +317,7 @@ fn of4_ack_ahead_of_unsent_fragment_returns() {
     hc.handle_ack_frame(frame::AckFrame { frame_window_base_id: TXF, packet_window_base_id: 0, frame_acks: Vec::new() });
     hc.flush_alloc = AMPLE;
     hc.emit_frames(t1, e.rtt, e.rto, 1, &mut w);
+    assert!(hc.send_buffer_size() == 0, "[C20] a multi-fragment packet the peer's window has passed is no longer counted, to the byte");
     assert!(!is_data(&w.f1), "[C12] nothing of a packet the receiver has moved past is transmitted");
     assert!(!hc.is_send_pending(), "[C03,C09] the dead entry is dropped");
     std::mem::forget(w); std::mem::forget(hc);
@@ -447,5 +448,54 @@ fn of7_packet_cut_by_credit_continues_in_next_flush() {
     let b = data_frame(&w.f1, 0).unwrap();
     assert!(b.count == 1 && b.id == TXP && b.frag == 1 && b.last == 1 && b.len == 1, "[C12,C04] the second flush continues with fragment 1 and does not repeat fragment 0");
     assert!(!hc.is_send_pending(), "[C09] nothing is left for an Unreliable packet once every fragment has gone out");
+    assert!(hc.send_buffer_size() == 1449, "[C20] counted until the peer's window passes it");
+    hc.handle_ack_frame(frame::AckFrame { frame_window_base_id: TXF, packet_window_base_id: 0, frame_acks: Vec::new() });
+    assert!(hc.send_buffer_size() == 0, "[C20] zero once everything has been acknowledged (payload bytes, not fragment-rounded bytes)");
+    std::mem::forget(w); std::mem::forget(hc);
+}
+
+// ---------------------------------------------------------------------------------------------------------------
+// OF9: one frame carries a retransmission of packet A and the first transmission of packet B; the receiver moves
+// past A before that frame is acknowledged.  B's fragment must still be marked acknowledged (C12, C15).
+//@h props=C12,C15,C02,C09 tier=quick timeout=1800 role=flush-shared-frame-ack cbmc=--max-field-sensitivity-array-size+512 unwindset=FrameQueue17acknowledge_group.0:34
+//@fn HalfConnection::{send, emit_frames, emit_data_frames, handle_ack_frame, is_send_pending}, FrameQueue::{push, acknowledge_group}, PacketSender::acknowledge, DataFrameEmitter::{push, finalize}
+//@bound small connection; packet A (1 byte, Persistent) flushed at any t0; packet B (1 byte, Reliable) submitted; flush at any t1 >= t0 + 4 rtt (one frame: A again, then B); ack frame moving the packet window past A (no groups); ack frame acknowledging the shared frame (correct nonce; frame nonces pinned to true); flush at any t2 >= t1 + 4 rtt
+//@assume as of2_valid_ack_stops_resend_reliable
+#[kani::proof]
+#[kani::unwind(5)]
+#[kani::stub(crate::frame::serial::crc::compute, crate::frame::serial::verif_codec::crc_stub)]
+#[kani::stub(alloc::rc::is_dangling, not_dangling)]
+fn of9_ack_of_shared_frame_after_first_packet_was_passed() {
+    unsafe { crate::verif_env::RANDOM_BOOL_FIXED = Some(true); }
+    let e = any_env();
+    let mut hc = small(TXP, 0, TXF, 0, None);
+    let (ba, bb): (u8, u8) = (kani::any(), kani::any());
+    hc.send(Box::new([ba]), 0, SendMode::Persistent);
+    let t0 = any_time_from(0);
+    let t1 = any_time_from(t0);
+    kani::assume(t1 - t0 >= 4 * e.rtt);
+    let t2 = any_time_from(t1);
+    kani::assume(t2 - t1 >= 4 * e.rtt);
+    hc.sync_timeout_base_ms = t0;
+    hc.flush_alloc = AMPLE;
+    let mut w = Wire::new();
+    hc.emit_frames(t0, e.rtt, e.rto, 0, &mut w);
+    assert!(w.n == 1);
+    hc.send(Box::new([bb]), 0, SendMode::Reliable);
+    hc.flush_alloc = AMPLE;
+    hc.emit_frames(t1, e.rtt, e.rto, 1, &mut w);
+    assert!(w.n == 2, "[C12,C05] the due retransmission and the new packet share one frame");
+    let x = data_frame(&w.f1, 0).unwrap();
+    let y = data_frame(&w.f1, 1).unwrap();
+    assert!(x.count == 2 && x.frame_id == 0 && x.id == TXP && x.b0 == ba && y.id == 0 && y.b0 == bb, "[C05] retransmissions first, then new packets in submission order");
+    // the receiver has moved past A (e.g. it delivered a later packet of that channel): A leaves the send window
+    hc.handle_ack_frame(frame::AckFrame { frame_window_base_id: TXF, packet_window_base_id: 0, frame_acks: Vec::new() });
+    assert!(hc.send_buffer_size() == 1);
+    // the shared frame (id 0) is acknowledged
+    hc.handle_ack_frame(frame::AckFrame { frame_window_base_id: TXF, packet_window_base_id: 0, frame_acks: vec![frame::AckGroup { base_id: 0, bitfield: 1, nonce: true }] });
+    hc.flush_alloc = AMPLE;
+    hc.emit_frames(t2, e.rtt, e.rto, 2, &mut w);
+    assert!(!is_data(&w.f2) && !is_data(&w.f3), "[C12] a fragment is not transmitted again once its acknowledgement has been processed (even when the frame also carried a packet that no longer exists)");
+    assert!(!hc.is_send_pending(), "[C09,C02] nothing is pending");
     std::mem::forget(w); std::mem::forget(hc);
 }
